@@ -136,6 +136,8 @@ def gen_opts(rng, case, nb):
          "as_dict": rng.random() < 0.3}
     # rows handed over in a scrambled order are legitimate only together with ensure_sorted=True
     # (whole frame, or within each chunk of an iterator whose chunks are themselves in order)
+    o["dtype_kw"] = rng.choice(["dtypes", "dtype"])
+    o["dtypes_form"] = rng.choice(["full", "partial", "partial", "empty", "none"])
     o["shuffle"] = o["ensure_sorted"] and rng.random() < 0.8
     o["perm_seed"] = rng.randrange(10 ** 6)
     if not o["symm"]:
@@ -263,14 +265,25 @@ def scool_kwargs(case):
     if not o:
         return {}
     kw = {"mode": o["mode"], "symmetric_upper": o["symm"]}
+    # the dtype mapping: complete, or only the entries that differ from the defaults (count int32, other value
+    # columns float64) - then possibly {} or None - and spelled `dtypes=` or through the still accepted alias `dtype=`
     dt = {}
-    if o["count_dtype"] != "default":
+    form = o.get("dtypes_form", "partial")
+    if o["count_dtype"] != "default" and (form == "full" or NP_DTYPE[o["count_dtype"]] is not np.int32):
         dt["count"] = NP_DTYPE[o["count_dtype"]]
+    elif form == "full":
+        dt["count"] = np.int32
     if o["extra"]:
         kw["columns"] = ["count", o["extra"][0]]
-        dt[o["extra"][0]] = np.dtype(o["extra"][1]).type
-    if dt:
-        kw["dtypes"] = dt
+        if form == "full" or o["extra"][1] != "float64":
+            dt[o["extra"][0]] = np.dtype(o["extra"][1]).type
+    if form == "full":
+        dt.update({"bin1_id": np.int64, "bin2_id": np.int64})
+    spelling = o.get("dtype_kw", "dtypes")
+    if dt or form == "empty":
+        kw[spelling] = dt
+    elif form == "none":
+        kw["dtypes"] = None
     if o["h5opts"]:
         kw["h5opts"] = dict(o["h5opts"])
     kw.update(o["flags"])
@@ -320,6 +333,8 @@ def run_impl(d, k, case, given=None):
         # a plain collection already in the file: mode "a" must keep it, mode "w" replaces the file
         cooler.create_cooler(fn + "::/other", pd.DataFrame(case["bins"], columns=["chrom", "start", "end"]),
                              pd.DataFrame({"bin1_id": [0], "bin2_id": [0], "count": [3]}))
+        with h5py.File(fn, "r+") as h_:
+            h_.attrs["note"] = "keep me"          # an unrelated attribute of the file
         out["pre_tables"] = raw_group(fn, "/other")
     out["outcome"] = G.guarded(cooler.create_scool, fn, bins, px, **scool_kwargs(case))[0]
     if out["outcome"] != "Ok" or not os.path.exists(fn):
@@ -369,6 +384,10 @@ def run_impl(d, k, case, given=None):
         ids["cellkeys"] = sorted(h["cells"].keys())
         ids["rootkeys"] = sorted(h.keys())
         ids["other_is_cooler"] = ("other" in h and h["other"].attrs.get("format", None) == "HDF5::Cooler")
+        ids["root_note"] = h.attrs.get("note", None)
+    ids["other_after"] = raw_group(fn, "/other") if ids["other_is_cooler"] else None
+    with h5py.File(fn, "r") as h:
+        pass
         attrs = {"root": _attrs(h), "cells": {n: _attrs(h["cells"][n]) for n in h["cells"].keys()}}
     out["ids"] = ids
     out["attrs"] = attrs
@@ -422,6 +441,13 @@ def oracle(case, r):
     if o0.get("pre") and ids["other_is_cooler"] != (o0["mode"] == "a"):
         bad.append({"what": "collection already in the file: mode a must keep it, mode w must replace the file",
                     "mode": o0["mode"], "still_there": ids["other_is_cooler"]})
+    if o0.get("pre") and o0["mode"] == "a":
+        if ids.get("root_note") != "keep me":
+            bad.append({"what": "append mode lost an unrelated attribute of the file", "got": ids.get("root_note")})
+        if ids.get("other_after") is not None and list(ids["other_after"]) != list(r["pre_tables"]):
+            bad.append({"what": "append mode changed another collection of the file"})
+    if o0.get("pre") and o0["mode"] == "w" and ids.get("root_note") is not None:
+        bad.append({"what": "write mode kept an attribute of the replaced file"})
     if ids["cellkeys"] != sorted(names):
         bad.append({"what": "members of /cells", "got": ids["cellkeys"], "expected": sorted(names)})
     shared = case["shared_extra"] or {}
@@ -670,6 +696,25 @@ def run(ctx):
     os.makedirs(d, exist_ok=True)
     cases = [(c, "corpus") for c in corpus()]
     import copy
+    for spelling in ("dtypes", "dtype"):
+        for form in ("full", "partial"):
+            for cd, extra in (("float64", None), ("float64", ["score", "int32"]), ("int64", ["w2", "float64"]), ("default", ["score", "int32"])):
+                cs = copy.deepcopy(CORPUS_SORT)
+                cs["opts"].update({"count_dtype": cd, "extra": extra, "dtype_kw": spelling, "dtypes_form": form, "shuffle": False, "ensure_sorted": False})
+                for n_, c_ in cs["cells"].items():
+                    if cd == "float64":
+                        c_["pixels"] = [(i, j, v + 0.25 * (1 + (i + j) % 3)) for i, j, v in c_["pixels"]]
+                    if cd == "int64":
+                        c_["pixels"] = [(i, j, v + 2 ** 33) for i, j, v in c_["pixels"]]
+                    if extra:
+                        c_["xcol"] = [(k_ * 0.5 - 1.25) if extra[1] == "float64" else 7 * k_ - 3 for k_ in range(len(c_["pixels"]))]
+                cases.append((cs, "corpus"))
+    for form in ("empty", "none"):
+        cs = copy.deepcopy(CORPUS_SORT)
+        cs["opts"].update({"dtype_kw": "dtype" if form == "empty" else "dtypes", "dtypes_form": form, "extra": ["w2", "float64"], "shuffle": False})
+        for c_ in cs["cells"].values():
+            c_["xcol"] = [0.5 * k_ for k_ in range(len(c_["pixels"]))]
+        cases.append((cs, "corpus"))
     for ordered, chunks, as_dict in ((None, None, False), (False, None, False), (True, 2, False), (None, None, True)):
         cs = copy.deepcopy(CORPUS_SORT)
         cs["opts"].update({"ordered": ordered, "chunks": chunks, "as_dict": as_dict})
